@@ -54,6 +54,8 @@ class Pipe(chan.ChannelScenario):
     def stream(self):
         p = self.params
         s = p["pre"].encode("latin-1") if isinstance(p["pre"], str) else p["pre"]
+        if p.get("inq"):
+            s += p["inq"].encode("latin-1") if isinstance(p["inq"], str) else p["inq"]
         for seg, guard in p.get("segments", []):
             if guard != "eof" and not (isinstance(seg, str) and seg.startswith("@")):
                 s += seg.encode("latin-1") if isinstance(seg, str) else seg
@@ -84,6 +86,8 @@ class Pipe(chan.ChannelScenario):
             else:
                 act = lambda sock=sock, data=data: sock.client_send(data)
             S.env_events.append((g, act, f"seg:{len(data)}"))
+        if p.get("inq"):
+            sock.client_send(p["inq"].encode("latin-1") if isinstance(p["inq"], str) else p["inq"])
         if "window" in p:
             sock.window = p["window"]
         for dr in p.get("drains", []):
